@@ -328,7 +328,9 @@ PROPS["C11"] = dict(
                ])])],
     native=[dict(files=["contracts/C11/c11_native.rs"],
                  harnesses={"c11_native_selection_operators": dict(anchor="Selection::select (sampling operators)",
-                            bound="BOUNDED STAND-IN, native run: 6 populations (sizes 0..5, ties, negatives) x counts 0..n+2 x 6 seeds x 12 operators as components; 4000-draw best-vs-worst frequency for the 4 weight-based operators")})],
+                            bound="BOUNDED STAND-IN, native run: 6 populations (sizes 0..5, ties, negatives) x counts 0..n+2 x 6 seeds x 12 operators as components; 4000-draw best-vs-worst frequency for the 4 weight-based operators"),
+                            "c11_native_rank_and_weights": dict(anchor="reverse_rank / proportional_weights (kernels)",
+                            bound="BOUNDED STAND-IN, native exhaustive enumeration: all populations of size 0..4 over 8 objective values (incl. a 1-ulp near-tie, 1e6, +inf) x 3 (offset, normalise) settings")})],
     min_obligations={"quick": 40, "thorough": 40},
     uncovered=["ExponentialRank, RouletteWheel, SUS, Tournament, DE selections, FullyRandom, CloneSingle are only covered by a BOUNDED native run "
                "(float powi / accumulation, rejection-sampling loops over a symbolic RNG, State + eyre keep both verifiers out)"],
